@@ -5,6 +5,16 @@ HERE = os.path.dirname(os.path.dirname(os.path.abspath(__file__)))
 ALL = ["C%02d" % i for i in range(1, 21)]
 
 CHECKS = {
+ "C01": dict(
+  text="Coq theorems (C01/Props.v) for every dispatcher description satisfying wf_proto and every handler oracle, by induction over the "
+       "message list: response ids = request ids up to and including the first exit, in arrival order, one each; notifications silent; "
+       "unknown method -> -32601; handler failure -> -32603 and the loop stays alive; status Running iff no exit. The description of the "
+       "current source (method table, except clauses, codes, run loop shape, every conn writer, every assignment to running) is regenerated "
+       "from fortls/langserver.py on every run and `wf_proto proto = true` is re-proved; LangServer.run() is trace-validated against the model.",
+  note="Trusted: Coq kernel, vm_compute, the ast translator (fail closed), trace validation harness. Hypothesis: handler results are JSON-serialisable "
+       "(refuted-without-it witness in Props.v; monitored on every payload). Handlers are an oracle.",
+  technique="Rocq proof (induction over message histories) over a model regenerated from source by a translator + trace validation",
+  design="4/C01"),
  "C02": dict(
   text="Coq theorems (C02/Props.v): splitlines glue lemma; apply_change refines the client's flat-string edit for every text, "
        "every split position and every inserted text under the junction-clean hypothesis; lifted over edit histories. "
